@@ -300,6 +300,18 @@ mod v_wire_cksum {
         equiv::<23>(20);
     }
 
+    // @harness props=C08 cfg=KW tier=t to=1200 mem=8 unwind=16 opts=nomem covers=2 funcs=wire::checksum::data bounds=length_0..=24;_start_offset_0..=3;_all_contents
+    #[kani::proof]
+    pub(crate) fn cksum_equiv_24() {
+        equiv::<27>(24);
+    }
+
+    // @harness props=C08 cfg=KW tier=t to=1200 mem=8 unwind=20 opts=nomem covers=2 funcs=wire::checksum::data bounds=length_0..=32;_start_offset_0..=3;_all_contents
+    #[kani::proof]
+    pub(crate) fn cksum_equiv_32() {
+        equiv::<35>(32);
+    }
+
     // `data` has no alignment-dependent path (`as_chunks` splits by length, words are read with
     // `from_ne_bytes` from byte arrays), so the split harness starts at offset 0 of a symbolic array.
     // @harness props=C08 cfg=KW tier=q to=900 mem=6 unwind=10 opts=nomem covers=2 funcs=wire::checksum::data;wire::checksum::combine bounds=length_0..=12;_every_even_split_point;_all_contents
@@ -821,11 +833,7 @@ mod v_wire_cksum {
         emit_valid_udp(false, 0xf, 0xf, 0xf, 0x0f, 4, false);
     }
 
-    // @harness props=C08 cfg=KW tier=t to=1200 mem=8 unwind=8 opts=nomem covers=1 funcs=wire::Icmpv4Repr::emit;wire::Icmpv4Packet::fill_checksum bounds=echo_request/reply,_ident,_seq_and_8_data_bytes_symbolic_(6_words)
-    #[kani::proof]
-    pub(crate) fn emit_valid_icmpv4_full() {
-        emit_valid_echo(false, 0, 0, 0xf, 0xff, 8, false);
-    }
+    // (an ICMPv4 echo with ident, seq and 8 data bytes symbolic gave no answer in 40 min: not kept)
 
     // @harness props=C08 cfg=KW tier=t to=1200 mem=8 unwind=8 opts=nomem covers=1 funcs=wire::TcpRepr::emit;wire::TcpPacket::fill_checksum bounds=no_options,_fixed_IPv4_addresses;_ports,_seq,_ack,_window,_control_flag,_ACK_presence_and_4_payload_bytes_symbolic_(9_words)
     #[kani::proof]
